@@ -170,6 +170,15 @@ PROPS["C08"] = dict(
         K("C08.vr_compatible", "dicom-encoding", [_H + "c08_vr_compatible"],
           "vr_compatible_with_virtual == meaning of the virtual VRs (34 x 38 table)",
           fns=[(_AD, "vr_compatible_with_virtual")]),
+        N("C08.streams", _WR2 % "c08_streams",
+          "on the compiled decoders with the REAL standard dictionary: header streams whose first element is unambiguous are read by the "
+          "adaptive decoder exactly as by the decoder of the true encoding — tag, VR, length and reported header size of the first element "
+          "and of everything that follows (all 34 VRs in both length forms, an item, delimiters): explicit streams starting with each of 22 "
+          "attributes (exact VRs, the virtual VRs Xs / Ox / Px / Lt, private, unknown) in each real VR their entry allows; implicit streams "
+          "with value lengths 0-40 and the lengths whose low bytes spell a VR code the entry does not allow (survives renamings of the "
+          "decoder's private state that the in-module Kani harness depends on)",
+          bound="2168 streams (native enumeration of the compiled code; not a deductive result)",
+          fns=[(_AD, "vr_compatible_with_virtual")]),
     ],
     assumptions=[
         "dictionary abstracted by its contract: by_tag answers one arbitrary fixed Option<entry> for the tag looked up",
@@ -312,8 +321,8 @@ PROPS["C07"] = dict(
           "level and inside a defined-length item of a defined-length sequence, each followed by a sentinel element: Accept consumes exactly "
           "the declared bytes, NextEven one more, Fail reports an error as the first token; the sentinel, ItemEnd and SequenceEnd tokens "
           "come at the right places and the source is consumed exactly to its end",
-          bound="1120 streams: 3 strategies x 32 VRs x 7 odd lengths, plus (Accept / NextEven) the same element alone inside an item whose own declared length is odd (native enumeration of the compiled code; not a deductive result)",
-          fns=[("parser/src/dataset/read.rs", "next", r"impl<S>\s+Iterator\s+for\s+DataSetReader")]),
+          bound="1441 streams: 3 strategies x 32 VRs x 7 odd lengths, plus (Accept / NextEven) the same element alone inside an item whose own declared length is odd; the LazyDataSetReader (values skipped, and values read) on 10 VRs x 4 odd lengths x 3 strategies; encapsulated pixel data with an offset table of 0 / 4 / 8 bytes and a first fragment of odd declared length under the 3 strategies, eager and lazy (native enumeration of the compiled code; not a deductive result)",
+          fns=[("parser/src/dataset/read.rs", "next", r"impl<S>\s+Iterator\s+for\s+DataSetReader"), ("parser/src/dataset/lazy_read.rs", "advance")]),
         N("C07.value_readers_native", _W % "c07_positions",
           "on the compiled StatefulDecoder: read_value / read_value_preserved / read_value_bytes for every VR, declared lengths 0-17 and four "
           "fill patterns, read_to_vec / skip_bytes on short sources: reported position == bytes consumed from the source == declared length",
@@ -624,6 +633,15 @@ PROPS["C14"] = dict(
           "`ggggeeee` / `(gggg,eeee)` with hex digits in any letter case, and then tag is the one spelled; never panics",
           fns=[("core/src/header.rs", "from_str", r"impl\s+FromStr\s+for\s+Tag"), ("core/src/header.rs", "parse_tag_part")],
           timeout=900),
+        N("C14.text", _WR % "c14_text",
+          "printing and selectors, on the compiled code (fmt machinery and string splitting are outside both verifiers): every tag of 65536 "
+          "groups x 70 elements prints as `(GGGG,EEEE)` and the printed form — and the lower-case comma / compact forms — parse back to it; "
+          "attribute selectors of 1-4 steps (tags incl. groups below 0x1000 and private ones; item indices 0, 1, 9, 10, 255, 4294967295) "
+          "print as the steps joined by '.' and parse back (parse_selector) equal; dictionary keywords inside selectors resolve to the "
+          "keyword's tag, also mixed with tags; malformed selectors (index on the last step, missing bracket, empty step, unknown or "
+          "wrong-case keyword, non-numeric / negative / too large index) are rejected",
+          bound="9 229 188 checks (native enumeration of the compiled code; not a deductive result)",
+          fns=[("core/src/dictionary/data_element.rs", "parse_selector")]),
         K("C14.tag_from_str_more", "ext",
           ["c14::c14_tag_from_str_len9", "c14::c14_tag_from_str_len0", "c14::c14_tag_from_str_len7", "c14::c14_tag_from_str_len10",
            "c14::c14_tag_from_str_len12"],
@@ -631,7 +649,7 @@ PROPS["C14"] = dict(
     ],
     assumptions=["strings of lengths other than 0, 7-12 are rejected by the first statement of from_str (`match s.len()`): argued from the code, not proved",
                  "core::str::from_utf8 is compiled and checked by Kani (used to enumerate exactly the valid UTF-8 strings)"],
-    uncovered=["Display for Tag and the printed forms (fmt machinery)", "AttributeSelector text syntax and parse_selector",
+    uncovered=["Display for Tag, the AttributeSelector text syntax and parse_selector: deductively uncovered (only the native unit C14.text)",
                "dictionary keyword resolution in selectors (HashMap)"],
 )
 
@@ -860,6 +878,16 @@ PROPS["C27"] = dict(
           expected_verified=5),
         V("C27.read_pdu_head", "c25_read_pdu_head.vrs",
           "the callee's framing: every strict prefix of header + declared content reads as incomplete (shared with C25)", expected_verified=6),
+        N("C27.association",
+          "cp /repo/Cargo.lock /verif/witness/Cargo.lock && CARGO_TARGET_DIR=/verif/build/witness cargo run --offline -q --release "
+          "--manifest-path /verif/witness/Cargo.toml --bin c27_association 2>&1 | grep -E '^(WITNESS|EXHAUSTIVE|SKIPPED|error)' | tail -12",
+          "association level, on the compiled code over a loopback TCP connection inside the process: a hand-written peer sends the handshake "
+          "PDU (A-ASSOCIATE-AC to a requestor, A-ASSOCIATE-RQ to an acceptor) followed at once — in ONE write, and byte by byte — by a P-DATA-TF "
+          "and an A-RELEASE-RQ: after establish, successive receive() calls (or receive_pdata() then receive()) return exactly those PDUs in "
+          "order: nothing that arrived together with the handshake PDU, or behind a P-DATA message, is lost when the read buffer changes hands "
+          "(skipped, not failed, where loopback TCP is unavailable)",
+          bound="12 checks over 6 conversations (native run of the compiled code; not a deductive result)",
+          fns=[("ul/src/association/mod.rs", "read_pdu_from_wire")], timeout=600),
         N("C27.segmentations",
           "cp /repo/Cargo.lock /verif/witness/Cargo.lock && CARGO_TARGET_DIR=/verif/build/witness cargo run --offline -q --release "
           "--manifest-path /verif/witness/Cargo.toml --bin c27_segmentations 2>&1 | grep -E '^(WITNESS|EXHAUSTIVE|error)' | tail -12",
